@@ -348,7 +348,7 @@ MANIFEST_TEXT = {
  'C14': dict(
     text='Lean theorems for every original-command token tree / byte string, LOGNAME, SSH_CONNECTION and argument vector: NewReqParam never crashes, and a success returns the '
          'server-side login name, the valid first field of the connection string, a policy in {NONS,NSOK} taken from the second-last of 3..6 tokens, the declared major.minor '
-         '(0.0 when a legacy message omits it), a 10-hex-digit transaction id, and the client claims only in their own fields. Tied by differential runs against csr.NewReqParam.',
+         '(0.0 when a legacy message omits it), a 10-hex-digit transaction id, and the client claims only in their own fields. parseForceCommand, version.Unmarshal and ValidNamespacePolicy are translated statement by statement on every run and proved equal to the model for all inputs (no index or slice expression panics). Tied also by differential runs against csr.NewReqParam.',
     design_ref='DESIGN.md §7 C14',
     note=_NOTE + 'net.ParseIP and crypto/rand are oracles; JSON lexer as in C05.',
     technique='Lean 4 proof (decision logic / totality) + model/implementation correspondence'),
@@ -388,7 +388,7 @@ MANIFEST_TEXT = {
     technique='Lean 4 proof (codec round-trips through the dispatch model) + client/server correspondence'),
  'C20': dict(
     text='Lean theorems over histories of wait registrations and requests: a request with code c releases exactly the clients registered on c, all together, and keeps every other waiter; a waiter stays blocked through any sequence without a c-request and the next c-request frees it (induction over the history); codes outside the table return immediately and wake nobody; '
-         'with the regenerated table size 40 and guard `msg < byte(len)` every guarded access is in range for all 256 codes; ServeAgent broadcasts req[0] before dispatch (regenerated). The history model is compared with the real server using observed registration.',
+         'with the regenerated table size 40 and guard `msg < byte(len)` every guarded access is in range for all 256 codes; ServeAgent broadcasts req[0] before dispatch (regenerated); a burst of requests releases exactly the waiters on its in-range codes in whatever order it is processed (c20_burst). The history model is compared with the real server using observed registration, including well-formed lock / unlock requests and bursts sent on separate connections at the same moment.',
     design_ref='DESIGN.md §7 C20',
     note=_NOTE + 'sync.Cond and the Go scheduler are trusted (partial).',
     technique='Lean 4 proof (invariant over event histories) over regenerated table facts + observed-schedule correspondence'),
@@ -418,27 +418,27 @@ MANIFEST_TEXT = {
     technique='Lean 4 proof (decision logic, frame lemmas over the filter passes) + fault-injecting correspondence'),
  'C01': dict(
     text='Lean theorems over every parameter set, key-directory state, agent behaviour, handler list and world: the selection loop issues nothing and keeps all identities; if nobody authenticates nothing is generated / signed / added and the run reports all-authentications-failed; '
-         'whenever a request is generated, the CA called or the agent added to, the first handler in order that authenticated was selected, and for the regular handler: policy NONS, no hardware key, a registered key, and a signature by the forwarded agent over the fresh challenge of this call that verifies under it, recorded before anything is issued; challenge = next index of the random source. '
+         'whenever a request is generated, the CA called or the agent added to, the first handler in order that authenticated was selected, and for the regular handler: policy NONS, no hardware key, a registered key, and a signature by the forwarded agent over the fresh challenge of this call that verifies under it, recorded before anything is issued; challenge = next index of the random source, and over every history of runs (any handler lists, agents, CA behaviour, faults) no two challenges coincide (c01_challenges_distinct). '
          'Every statement of Run / Authenticate / challengePubKey / lookupPubKeyFile is regenerated and pinned; the model is compared with the real Run + regular handler over scripted agents.',
     design_ref='DESIGN.md §7 C01',
     note=_NOTE + 'unforgeability and unpredictability are assumptions built into the `verifies` oracle (partial).',
     technique='Lean 4 proof (invariant over the handler loop, decision logic) + trace-level correspondence'),
  'C02': dict(
-    text='Lean theorems: every request the regular handler produces has exactly one principal (the login name), the configured validity, the default extension set, the key slot of the requested algorithm (refused when none), a key drawn fresh for this request (never a registered key, never reused); '
+    text='Lean theorems: every request the regular handler produces has exactly one principal (the login name), the configured validity, the default extension set, the key slot of the requested algorithm (refused when none), a key drawn fresh for this request (never a registered key, never reused: over every history of runs every challenge and key pair takes its own index of the random source, c02_history_fresh / c02_keys_distinct); '
          'its KeyID encodes and decodes (C05 round trip, all strings) to the stated attributes. KeyID / CSR literals and the default extension set are regenerated and pinned; the request the CA receives is compared field by field.',
     design_ref='DESIGN.md §7 C02',
     note=_NOTE + 'key generation and crypto/rand are oracles (fresh draws are distinct indices).',
     technique='Lean 4 proof (decision logic + C05 round trip) + correspondence on the recorded signing request'),
  'C03': dict(
     text='Lean theorems: lifetime = (v mod 2^32 + 3600) mod 2^32 is finite and >= v for v in 1s..10y (sharp: wraps to 0 at 2^32-3600); the private key and every certificate add carry that lifetime, the same key and the certificate label; '
-         'identities without the handler label (near-miss comments included) survive AddCertsToAgent whether it succeeds or fails at any request (induction over refresh and add loops); a run in which nobody authenticates leaves every identity. '
+         'identities without the handler label (near-miss comments included) survive AddCertsToAgent whether it succeeds or fails at any request (induction over refresh and add loops); a run in which nobody authenticates leaves every identity; over every history of runs against one agent an identity of a long-term key without the label is still there at the end (c03_history_foreign_kept). '
          'After a successful run (c03_run_success) every certificate the CA returned is in the agent stored with the new private key under the label and lifetime (c03_success_stores), every labelled identity left is one of this run (c03_one_generation: at most one generation), and a run failing in generation or at the CA keeps every identity (c03_failed_signing_keeps). Also checked on the real agent by the statement clauses of Spec/Gensign.',
     design_ref='DESIGN.md §7 C03',
     note=_NOTE + 'x/crypto keyring semantics for the requester agent.',
     technique='Lean 4 proof (arithmetic, induction over the refresh/add loops) + correspondence on agent contents'),
  'C04': dict(
     text='Lean theorems: for runs of the regular handler the result kind is a function of the first failing step (no authentication → all-auth-failed; generate → CSR / configuration error; CA error → signer error; CA panic → panic; agent failure in AddCertsToAgent → agent error) and success iff every step succeeded; '
-         'no certificate is added unless a CA call for the same key succeeded earlier in the trace; the model has no crash outcome (recover pinned in the regenerated Run). Faults at every agent request index, CA errors / panics and panics in every handler method are injected into the real Run.',
+         'no certificate is added unless a CA call for the same key succeeded earlier in the trace; for every handler list, success implies that no step after the selection failed (c04_success_every_step); the model has no crash outcome (recover pinned in the regenerated Run). Faults at every agent request index, CA errors / panics and panics in every handler method are injected into the real Run.',
     design_ref='DESIGN.md §7 C04',
     note=_NOTE + 'fatal runtime errors that recover cannot catch are out of scope.',
     technique='Lean 4 proof (case analysis of Run, trace ordering) + fault-injection correspondence'),
@@ -456,7 +456,7 @@ MANIFEST_TEXT = {
     technique='Lean 4 proof over the regenerated TLS configuration record + real-handshake correspondence'),
  'C11': dict(
     text='Lean theorems: for a reader-writer lock and threads that take their method\'s lock first and release on return, mutual exclusion (an exclusive holder is alone) is an invariant of every scheduling step, hence of every interleaving; under the discipline "writers and connection users hold it exclusively, readers at least shared" no reachable state has two threads inside with a write by one and an access by the other to the same cell (the single upstream connection is a cell). '
-         'The discipline is proved (by decide) of the method table regenerated from shimserver.go each run — including Signers and Extension (F7). Supported by race-detector stress runs with own-reply and final-state checks. Progress: in every reachable state with an unfinished operation some thread can step and the remaining work strictly decreases (c11_progress, c11_no_deadlock); the harness enumerates all sequences of four operations under a watchdog.',
+         'The discipline is proved (by decide) of the method table regenerated from shimserver.go each run — including Signers and Extension (F7) — and every signer Signers returns is proved to be routed through the shim (c11_signers_routed over the regenerated list of returned values, F12). Supported by race-detector stress runs with own-reply and final-state checks. Progress: in every reachable state with an unfinished operation some thread can step and the remaining work strictly decreases (c11_progress, c11_no_deadlock); the harness enumerates all sequences of four operations under a watchdog.',
     design_ref='DESIGN.md §7 C11',
     note=_NOTE + 'Go scheduler / memory model not modelled (partial).',
     technique='Lean 4 proof (invariant over all interleavings of a lock model) over a regenerated lock table + race-detector schedule sampling'),
